@@ -21,7 +21,7 @@ def plan(tier):
            (PG.saturate(5, 0, None, "reusable", cpu=1), 0, dict(kinds=("P",)))]
     # "the same executor, unchanged" (reuse=True without max_workers) asked of a pool that idle
     # timers may have drained partly or wholly: it still runs max_workers tasks at once
-    pl += [(PG.reuse_true_after_drain(3), 1, dict(kinds=("T",))), (PG.reuse_true_after_drain(2), 2, dict(kinds=("T",)))]
+    pl += [(PG.reuse_true_after_drain(3), 1, dict(kinds=("T",))), (PG.reuse_true_after_drain(2), 1, dict(kinds=("T",)))]
     # a resize interrupted by an exception (warnings as errors) must not leave a half-updated pool
     pl += [(PG.interrupted_resize(3, 1), 1, PT), (PG.interrupted_resize(2, 1), 1, PT)]
     # idle timers expire while the last submit is in progress (timeout ~ 0 relative to that call),
